@@ -61,7 +61,9 @@ func (v jsVal) canon() string {
 func sArg(s string) jsArg  { return jsArg{T: "s", S: s} }
 func nArg(n float64) jsArg { return jsArg{T: "n", N: n} }
 
-var hostileJS = []jsArg{{T: "u"}, {T: "null"}, {T: "nan"}, {T: "inf"}, {T: "ninf"}, {T: "n", N: -1}, {T: "n", N: 1e300}, {T: "b", B: true}, {T: "o"}, {T: "a"}, {T: "s", S: ""}}
+var hostileJS = []jsArg{{T: "u"}, {T: "null"}, {T: "nan"}, {T: "inf"}, {T: "ninf"}, {T: "n", N: -1}, {T: "n", N: 1e300}, {T: "b", B: true}, {T: "o"}, {T: "a"}, {T: "s", S: ""},
+	// every other JavaScript type a caller can hand over: BigInt, Symbol, function, Date, typed array, boxed string / number
+	{T: "bigint", S: "1"}, {T: "bigint", S: "18446744073709551616"}, {T: "sym"}, {T: "fn"}, {T: "date"}, {T: "u8"}, {T: "strobj", S: "6"}, {T: "numobj", N: 1}}
 
 func jsDigits(rng *gen.RNG) string {
 	if rng.Intn(8) == 0 {
@@ -357,7 +359,11 @@ type nodeOut struct {
 }
 
 func runNode(c *Ctx, cases []jsCase, tag string) (*nodeOut, string, error) {
-	dir, drv, scratch := c.Env["VERIF_JS_DIR"], c.Env["VERIF_JS_DRIVER"], c.Env["VERIF_SCRATCH"]
+	return runNodeIn(c, c.Env["VERIF_JS_DIR"], cases, tag)
+}
+
+func runNodeIn(c *Ctx, dir string, cases []jsCase, tag string) (*nodeOut, string, error) {
+	drv, scratch := c.Env["VERIF_JS_DRIVER"], c.Env["VERIF_SCRATCH"]
 	if dir == "" || drv == "" {
 		return nil, "", fmt.Errorf("wasm module / Node driver not provided by bin/check")
 	}
@@ -477,6 +483,7 @@ func init() {
 				}
 			}
 			c20Native(c)
+			c20Committed(c)
 		},
 		Replay: func(c *Ctx, kind string, raw json.RawMessage) error {
 			if kind != "js" {
@@ -494,6 +501,45 @@ func init() {
 			})
 		},
 	})
+}
+
+// c20Committed: the JavaScript package as it sits in the tree - index.js loads the COMMITTED otp-js/lib/otp.wasm, not
+// a fresh build. The names the package exports must answer like the native library there too; an artefact that was
+// not rebuilt after the Go sources changed shows up as a difference (path label "committed-artefact/...").
+func c20Committed(c *Ctx) {
+	r := c.R
+	dir := c.Env["VERIF_JS_COMMITTED_DIR"]
+	if dir == "" {
+		r.Inconclusive("committed otp-js/lib/otp.wasm not examined: scratch copy of the package as committed not provided by bin/check")
+		return
+	}
+	sub := *c
+	sub.RNG = c.RNG.Fork(2099)
+	cases := c20Cases(&sub, c.N(3000, 40000))
+	no, tail, err := runNodeIn(c, dir, cases, "committed")
+	if err != nil || no == nil || no.Fatal != "" {
+		msg := fmt.Sprint(err)
+		if no != nil && no.Fatal != "" {
+			msg = no.Fatal
+		}
+		r.Inconclusive("Node run on the committed artefact failed: " + msg + " " + clipS(tail))
+		return
+	}
+	byID := map[int]int{}
+	for i, res := range no.Results {
+		byID[res.ID] = i
+	}
+	for _, k := range cases {
+		i, ok := byID[k.ID]
+		if !ok {
+			r.Violate("C20|"+k.Fn+"|no-result|committed-artefact", "the committed module stopped answering", "js", k, k.Want, "no result; node output: "+clipS(tail))
+			break
+		}
+		r.Nontrivial("committed|" + k.Fn + "|" + mustJSON(k.Args))
+		judgeJS(c, k, "committed-artefact/globalThis", no.Results[i].Global)
+		judgeJS(c, k, "committed-artefact/exports", no.Results[i].Exported)
+		r.Count("calls_on_committed_artefact", 1)
+	}
 }
 
 // c20Native: the binding's Go sources compiled natively (overlay) against the same oracle, larger domain.
